@@ -389,8 +389,8 @@ func childSeq(r *mon.Run, out *childOut) {
 		cfg := seqCfg{NNames: 2, Depth: len(seq)}
 		tb := nbtns.NewNetBIOSNameServer(true)
 		var steps []string
-		for _, oi := range seq {
-			a := apply(tb, alpha[oi], false, formFor(alpha[oi]))
+		for i, oi := range seq {
+			a := apply(tb, alpha[oi], false, formFor(alpha[oi], i))
 			steps = append(steps, alpha[oi].String()+" -> "+describeOutcome(a.Out, alpha[oi].Kind == opQuery))
 		}
 		out.res.Samples = append(out.res.Samples, map[string]any{"workload": "W1", "config": cfg.String(), "steps": steps})
